@@ -45,9 +45,19 @@ def schema_terms():
         ("list", ("typed", rx(r"\s+")), (ln(2),)),
         # lists whose length is left to the generator's defaults, flat and nested
         ("list", ("typed", S("bool")), ()), ("list", ("typed", ("list", ("typed", INT), ())), (ln(1, 2),)),
+        # patterns whose generated text (practically) never matches - a word boundary between two
+        # word characters, a non-boundary at the start: whatever comes out, the same every time
+        rx(r"\w\b\w"), rx(r"\Bab [a-c]{2}"),
+        # pinned to a timezone-aware datetime (a datetime is a date, and a datetime): the value
+        # generated may not depend on the zone the process happens to run in
+        S("date", call(_AWARE)), S("datetime", call(_AWARE)),
+        ("list", ("elems", (S("date", call(_AWARE)), INT)), ()),
     ]
 
 
+import datetime as _dt  # noqa: E402
+
+_AWARE = _dt.datetime(2023, 6, 30, 23, 30, tzinfo=_dt.timezone.utc)
 _D4 = ("dict", (("a", False, INT), ("c", False, S("bool")), ("d", False, S("int", ("min", 0), ("max", 7))),
                 ("e", False, S("str", ln(2)))), False)
 _D3 = ("dict", (("a", True, INT), ("b", True, S("str", ln(2))), ("c", True, S("bool")),
